@@ -283,7 +283,7 @@ def trace_props(op):
     if n == "entry":
         return {"C11", "C12", "C03", "C02", "C05"}
     if n == "disjoint":
-        return {"C13"}
+        return {"C13", "C18"} if op.get("unchecked") else {"C13"}
     if n in ("s_iter",):
         return {"C09", "C12"}
     if n in ("s_into_iter",):
@@ -516,6 +516,8 @@ def jobs_for(pid, tier):
                     caps=[8, 6, 4, 2], classes=12)
 
     tmap, tset = [trace("trace-map", "map")], [trace("trace-set", "set")]
+    # one long history in a container of capacity 300 (slot indices beyond one byte)
+    tbig = [dict(trace("trace-big", "map"), runs=(1 if q else 3), steps=(1500 if q else 2500), caps=[300], classes=400)]
     qcaps = [(2, 3), (3, 2), (0, 2), (2, 0)]
     tcaps = [(2, 3), (3, 2), (0, 2), (2, 0), (0, 0), (1, 1), (2, 2), (3, 3), (3, 4), (4, 3), (4, 4), (2, 4), (4, 2)]
     core = both("core", ["core"])
@@ -533,15 +535,15 @@ def jobs_for(pid, tier):
             out.append(dict(j, profiles=["debug", "release"] + ex))
         return out
     table = {
-        "C01": shaped(core) + tmap,
+        "C01": shaped(core) + tmap + tbig,
         "C07": shaped(setcore + both("setbulk", ["bulk"], mode="set", consts={"MaxExtra": 1}, bigconsts={"Vers": [0]})) + tset,
         "C09": both("cursor", ["cursor"]) + setcore + tmap + tset,
         "C10": both("cursor", ["cursor"]) + core + setcore + tmap + tset,
         "C11": both("entry", ["entry"]) + tmap,
         "C12": core + both("entry", ["entry"]) + setcore + tmap + tset,
-        "C13": prof(both("disjoint", ["disjoint"], consts={"Vers": [0], "MaxKs": 3}, bigconsts={"MaxKs": 4}), "asan", "miri") + tmap,
+        "C13": prof(both("disjoint", ["disjoint"], consts={"Vers": [0], "MaxKs": 3}, bigconsts={"MaxKs": 4}), "asan", "miri") + tmap + tbig,
         "C16": both("bulk", ["bulk"], bigconsts={"MaxExtra": 1}) + both("setbulk", ["bulk"], mode="set", consts={"MaxExtra": 1}, bigconsts={"Vers": [0]}),
-        "C18": both("unchecked", ["unchecked"], consts={"MaxKs": 3}, bigconsts={"Vers": [0], "MaxKs": 4}),
+        "C18": both("unchecked", ["unchecked"], consts={"MaxKs": 3}, bigconsts={"Vers": [0], "MaxKs": 4}) + tmap + tbig,
         "C19": both("fmt", ["fmt", "cursor"]) + setcore,
         "C08": pairs("alg", ["algebra"], "set", qcaps if q else tcaps),
         "C14": pairs("eqset", ["eq"], "set", qcaps if q else tcaps) + pairs("eqmap", ["eq"], "map", qcaps[:2] if q else tcaps[:9]),
